@@ -237,7 +237,8 @@ def run_histories(case, rec):
                  classes=['hist_backend:' + st_[1], 'hist_ctx:' + ctx_kind.split('|')[0]] +
                  (['hist_revision_earlier'] if 'revision-earlier' in ctx_kind else []) + (['hist_whitelist'] if st_[3] else []) +
                  (['hist_shared_api'] if len(st_) > 4 and st_[4] and i and script[i - 1][0] == st_[0] and
-                  len(script[i - 1]) > 4 and script[i - 1][4] and script[i - 1][3] == st_[3] else []),
+                  len(script[i - 1]) > 4 and script[i - 1][4] and script[i - 1][3] == st_[3] and
+                  all(backends.CONFIGS[x[1]][0] in ('python_types', 'python_type_stubs') for x in (st_, script[i - 1])) else []),
                  sample=lambda: {'script': script[:i + 1], 'files': [(p, t[:200]) for p, t in sets[0][:1]]})
         if steps[i] != fresh[key]:
             files = sorted(k for k in set(steps[i]) | set(fresh[key]) if steps[i].get(k) != fresh[key].get(k))
